@@ -20,29 +20,41 @@ def big_islands(size):
     return isl
 
 
-def param_sfo(p, title_id, mtime, extra_before=0, extra_after=0):
+def param_sfo(p, title_id, mtime, extra_before=0, extra_after=0, realistic=False):
     """A well-formed PARAM.SFO: TITLE_ID plus optional other entries before/after it (any key order is legal)."""
     entries = []
     for i in range(extra_before):
         entries.append(("AAA_%02d" % i, b"v%d\x00" % i))
-    entries.append(("TITLE_ID", title_id.encode() + b"\x00"))
+    if realistic:
+        # the key set of a real disc (sorted; integer entries; TITLE right before TITLE_ID; values with room to spare)
+        entries += [("APP_VER", b"01.00\x00", 0x0204, 8), ("ATTRIBUTE", struct.pack("<I", 0x25), 0x0404, 4), ("BOOTABLE", struct.pack("<I", 1), 0x0404, 4),
+                    ("CATEGORY", b"DG\x00", 0x0204, 4), ("LICENSE", b"Library programs (c) Sony. " * 8 + b"\x00", 0x0204, 512),
+                    ("PARENTAL_LEVEL", struct.pack("<I", 5), 0x0404, 4), ("PS3_SYSTEM_VER", b"03.4100\x00", 0x0204, 8),
+                    ("RESOLUTION", struct.pack("<I", 63), 0x0404, 4), ("SOUND_FORMAT", struct.pack("<I", 279), 0x0404, 4),
+                    ("TITLE", "Some Game: The Sequel\u2122".encode() + b"\x00", 0x0204, 128)]
+        entries.append(("TITLE_ID", title_id.encode() + b"\x00", 0x0204, 16))
+        entries.append(("VERSION", b"01.02\x00", 0x0204, 8))
+    else:
+        entries.append(("TITLE_ID", title_id.encode() + b"\x00"))
     for i in range(extra_after):
         entries.append(("ZZZ_%02d" % i, b"w%d\x00" % i))
     keys = b""
     data = b""
     idx = b""
-    for k, v in entries:
+    for e in entries:
+        k, v = e[0], e[1]
+        fmt = e[2] if len(e) > 2 else 0x0204
         koff, doff = len(keys), len(data)
         keys += k.encode() + b"\x00"
-        vmax = (len(v) + 3) // 4 * 4
+        vmax = e[3] if len(e) > 3 else (len(v) + 3) // 4 * 4
         data += v.ljust(vmax, b"\x00")
-        idx += struct.pack("<HHIII", koff, 0x0204, len(v), vmax, doff)
+        idx += struct.pack("<HHIII", koff, fmt, len(v), vmax, doff)
     while len(keys) % 4:
         keys += b"\x00"
     key_start = 20 + len(idx)
     data_start = key_start + len(keys)
     raw = b"\x00PSF" + b"\x01\x01\x00\x00" + struct.pack("<III", key_start, data_start, len(entries)) + idx + keys + data
-    n = srv.fnode(p, len(raw), cid="sfo_%s_%d_%d" % (title_id, extra_before, extra_after), mtime=mtime)
+    n = srv.fnode(p, len(raw), cid="sfo_%s_%d_%d%s" % (title_id, extra_before, extra_after, "_r" if realistic else ""), mtime=mtime)
     n["raw"] = raw.hex()
     return n
 
@@ -92,12 +104,12 @@ def big_file_tree(size, name="BIG.BIN"):
     return nodes
 
 
-def ps3_tree(rng, title_id="BLES01234", extra_before=0, extra_after=0):
+def ps3_tree(rng, title_id="BLES01234", extra_before=0, extra_after=0, realistic=False):
     t = 1500000000
     return [srv.dnode(["d"], t), srv.dnode(["d", "PS3_GAME"], t + 1), srv.dnode(["d", "PS3_GAME", "USRDIR"], t + 2),
             srv.fnode(["d", "PS3_GAME", "USRDIR", "EBOOT.BIN"], 70001, cid="eboot", mtime=t + 3),
             srv.fnode(["d", "PS3_GAME", "ICON0.PNG"], 2049, cid="icon", mtime=t + 4),
-            param_sfo(["d", "PS3_GAME", "PARAM.SFO"], title_id, t + 6, extra_before, extra_after),
+            param_sfo(["d", "PS3_GAME", "PARAM.SFO"], title_id, t + 6, extra_before, extra_after, realistic),
             srv.fnode(["d", "PS3_DISC.SFB"], 1536, cid="sfb", mtime=t + 7)]
 
 
